@@ -264,12 +264,13 @@ func runAxioms(rc *runCtx) {
 func init() {
 	register(&PropSpec{ID: "C02", Level: "proof",
 		Outside: []string{
-			"facts, assertions and loop invariants of whole programs at run time (design layer C: needs the Wuffs-AST symbolic interpreter, not built); fact invalidation across assignments, calls and suspension is therefore NOT covered",
+			"fact family: programs are drawn from a fixed statement pool (assignments, +=/-=, if/else, while with invariants and in-body probes, pure and impure calls, field writes; up to 2 statements before the probe in quick, 3 in thorough) over args.x, args.y, this.f and two locals; loops are unrolled 7 times for the strongest post-condition (executions with more iterations are outside the bound; the pool's loops end within 6); facts about slices, arrays, io_readers and coroutine suspension are outside the family",
 			"premises the checker discharges by other means than listed facts (e.g. constant folding) are taken as the checker states them in its 'cannot prove' message",
 		},
 		Assume: []string{
 			"the premises the code demands are extracted by running the real check.Check on a probe program per axiom and feeding each 'cannot prove' premise back as an enclosing if-condition until the assertion is accepted",
 			"variables are base.i32[-1000 ..= 1000] arguments in the probe; the SMT proof is over unbounded integers (linear integer arithmetic, no bound)",
+			"fact family: every fact the tree's checker holds at an `assert false` probe (check.Error.Facts) must be implied by the strongest post-condition of the program on every path that reaches the probe; the post-condition encoder is this check's own reading of Wuffs statement semantics (saturating/modular operators are not used in the pool)",
 		},
 		Custom: func(rc *runCtx) { runAxioms(rc); runFacts(rc) },
 	})
